@@ -8,6 +8,7 @@ implementation has to return for them.
 import math
 from decimal import Decimal
 from fractions import Fraction
+from functools import lru_cache
 
 ERRORS = ('#NULL!', '#DIV/0!', '#VALUE!', '#REF!', '#NAME?', '#NUM!', '#N/A')
 NUM, DIV0, VALUE = '#NUM!', '#DIV/0!', '#VALUE!'
@@ -17,6 +18,7 @@ def is_num(v):
     return isinstance(v, (int, float)) and not isinstance(v, bool)
 
 
+@lru_cache(maxsize=1024, typed=True)
 def frac(x):
     """exact value of the shortest decimal rendering of x"""
     if isinstance(x, bool):
@@ -52,20 +54,27 @@ def _ceil(q):
     return -((-q.numerator) // q.denominator)
 
 
+@lru_cache(maxsize=64)
 def pow10(d):
     return Fraction(10) ** d
 
 
 # ---------------------------------------------------------------- ROUND / ROUNDUP / ROUNDDOWN / TRUNC
 
-def to_grid(x, d, mode):
-    """x moved to a multiple of 10**-d; mode 'half' (nearest, ties away from zero), 'down' (toward
-    zero), 'up' (away from zero).  Returns the exact multiple."""
+@lru_cache(maxsize=64, typed=True)
+def _on_grid(x, d):
+    """(sign, whole steps, fractional step, step) of |x| measured in steps of 10**-d"""
     q = frac(x)
     unit = pow10(-d)
     a = abs(q) / unit
     n = _floor(a)
-    rem = a - n
+    return sign(q), n, a - n, unit
+
+
+def to_grid(x, d, mode):
+    """x moved to a multiple of 10**-d; mode 'half' (nearest, ties away from zero), 'down' (toward
+    zero), 'up' (away from zero).  Returns the exact multiple."""
+    sgn, n, rem, unit = _on_grid(x, d)
     if mode == 'half':
         if 2 * rem >= 1:
             n += 1
@@ -74,13 +83,17 @@ def to_grid(x, d, mode):
             n += 1
     elif mode != 'down':
         raise ValueError(mode)
-    return sign(q) * n * unit
+    return sgn * n * unit
+
+
+def grid_fraction(x, d):
+    """the fractional part of |x| / 10**-d (0 on a multiple, 1/2 on a tie)"""
+    return _on_grid(x, d)[2]
 
 
 def grid_position(x, d):
     """'multiple' | 'tie' | 'below-tie' | 'above-tie' of |x| on the grid 10**-d"""
-    a = abs(frac(x)) / pow10(-d)
-    rem = a - _floor(a)
+    rem = _on_grid(x, d)[2]
     if rem == 0:
         return 'multiple'
     if 2 * rem == 1:
@@ -179,11 +192,15 @@ def family_accept(func, x, s, mode=0):
 
 def mod_quotients(n, d):
     """the readings of INT(n/d): floor of the double quotient (what the formula INT(n/d) computes in
-    IEEE arithmetic) and floor of the exact quotient of the decimal renderings"""
-    qs = [math.floor(float(n) / float(d))]
-    qd = _floor(frac(n) / frac(d))
-    if qd not in qs:
-        qs.append(qd)
+    IEEE arithmetic; dropped if that quotient overflows) and floor of the exact quotient of the
+    decimal renderings"""
+    qs = [_floor(frac(n) / frac(d))]
+    try:
+        qf = math.floor(float(n) / float(d))
+    except OverflowError:
+        qf = qs[0]
+    if qf not in qs:
+        qs.insert(0, qf)
     return qs
 
 
@@ -208,6 +225,7 @@ def mod_clauses(n, d, m):
     return failed
 
 
+@lru_cache(maxsize=1024, typed=True)
 def dyadic(x):
     """the double holds the decimal rendering exactly"""
     return binary(x) == frac(x)
